@@ -1023,11 +1023,26 @@ enum BlockingMode {
     Timeout(Duration),
 }
 
-#[allow(clippy::uninit_vec, clippy::type_complexity)]
+#[allow(clippy::type_complexity)]
 fn recv(
     fd: c_int,
     blocking_mode: BlockingMode,
 ) -> Result<(Vec<u8>, Vec<OsOpaqueIpcChannel>, Vec<OsIpcSharedMemory>), UnixError> {
+    loop {
+        // `None` means that a sender went away in the middle of a fragmented message.
+        // That says nothing about the other senders of this channel,
+        // so the incomplete message is discarded and we go on with the next one.
+        if let Some(message) = recv_message(fd, blocking_mode)? {
+            return Ok(message);
+        }
+    }
+}
+
+#[allow(clippy::uninit_vec, clippy::type_complexity)]
+fn recv_message(
+    fd: c_int,
+    blocking_mode: BlockingMode,
+) -> Result<Option<(Vec<u8>, Vec<OsOpaqueIpcChannel>, Vec<OsIpcSharedMemory>)>, UnixError> {
     let (mut channels, mut shared_memory_regions) = (Vec::new(), Vec::new());
 
     // First fragments begins with a header recording the total data length.
@@ -1075,7 +1090,7 @@ fn recv(
 
     if total_size == main_data_buffer.len() {
         // Fast path: no fragments.
-        return Ok((main_data_buffer, channels, shared_memory_regions));
+        return Ok(Some((main_data_buffer, channels, shared_memory_regions)));
     }
 
     // Reassemble fragments.
@@ -1117,12 +1132,13 @@ fn recv(
 
         match result.cmp(&0) {
             cmp::Ordering::Greater => continue,
-            cmp::Ordering::Equal => return Err(UnixError::ChannelClosed),
+            // The dedicated channel got closed before the message was complete.
+            cmp::Ordering::Equal => return Ok(None),
             cmp::Ordering::Less => return Err(UnixError::last()),
         }
     }
 
-    Ok((main_data_buffer, channels, shared_memory_regions))
+    Ok(Some((main_data_buffer, channels, shared_memory_regions)))
 }
 
 // https://github.com/servo/ipc-channel/issues/192
